@@ -12,7 +12,12 @@
 (* (= the input case) is chosen in Init:                                   *)
 (*    n      size of the consensus group returned by the nodes coordinator *)
 (*    bm     the header's PubKeysBitmap: a sequence of bytes (0..255)      *)
-(*    fb     fallbackHeaderValidator.ShouldApplyFallbackValidation(header) *)
+(*    hk     what the fallback header validator looks at: [meta, soe,      *)
+(*           prev, dr] = header of the metachain?, start-of-epoch block?,  *)
+(*           is the header referenced by PrevHash available ("present" in  *)
+(*           the headers pool, "storage", "missing", "wrongtype" = a shard *)
+(*           header under that hash), dr = header.Round - previous.Round   *)
+(*           as a SIGNED difference (negative: round below the parent's)   *)
 (*    sg     the set of group members (indexes 0..n-1) whose signature     *)
 (*           shares over THIS header were aggregated into header.Signature *)
 (*           ("contributed to its aggregated signature")                   *)
@@ -24,8 +29,9 @@
 (***************************************************************************)
 EXTENDS Integers, Sequences, FiniteSets, TLC
 
-CONSTANTS IsCase(_),     \* predicate choosing the input records [n, bm, fb, sg, fg] (defined in MC_HeaderSig)
-          KnownDefects,  \* subset of {"paddingCounted"}: code as it is vs. intended design
+CONSTANTS MaxRoundsNoSoE, \* core.MaxRoundsWithoutCommittedStartInEpochBlock (50), read from the tree by the check
+          IsCase(_),     \* predicate choosing the input records [n, bm, hk, sg, fg] (defined in MC_HeaderSig)
+          KnownDefects,  \* subset of {"paddingCounted", "unsignedRoundDiff"}: code as it is vs. intended design
           Log(_, _)
 
 VARIABLES inp,    \* the header under verification
@@ -55,6 +61,23 @@ PBFTThreshold(n) == (n * 2) \div 3 + 1
 PBFTFallbackThreshold(n) == (n * 1) \div 2 + 1
 Threshold(n, fb) == IF fb THEN PBFTFallbackThreshold(n) ELSE PBFTThreshold(n)
 
+\* fallback.fallbackHeaderValidator.ShouldApplyFallbackValidation, transcribed from HEAD: the reduced threshold is
+\* allowed only for a start-of-epoch METAblock whose previous metablock is available (pool or storage) and which
+\* comes at least MaxRoundsWithoutCommittedStartInEpochBlock rounds after it.  The difference is signed
+\* (int64(round) - int64(prevRound)): a header whose round is below its parent's is NOT "too old".
+FallbackApplies(hk) ==
+    /\ hk.meta
+    /\ hk.soe
+    /\ hk.prev \in {"present", "storage"}
+    /\ hk.dr >= MaxRoundsNoSoE
+Fb(c) == FallbackApplies(c.hk)
+\* what the code computes; named deviation "unsignedRoundDiff": the difference taken in uint64 wraps around for a
+\* round below the parent's and the header counts as "too old"
+CodeFbD(D, c) ==
+    IF "unsignedRoundDiff" \in D
+    THEN c.hk.meta /\ c.hk.soe /\ c.hk.prev \in {"present", "storage"} /\ (c.hk.dr < 0 \/ c.hk.dr >= MaxRoundsNoSoE)
+    ELSE Fb(c)
+
 \* verifyConsensusSize: expected byte length of the bitmap
 ExpectedBitmapSize(n) == (n \div 8) + (IF n % 8 # 0 THEN 1 ELSE 0)
 
@@ -75,13 +98,13 @@ Verdict(D, c) ==
     IF c.bm = <<>> THEN "nilBitmap"
     ELSE IF ~Bit(c.bm, 0) THEN "leaderMissing"
     ELSE IF Len(c.bm) # ExpectedBitmapSize(c.n) THEN "wrongSize"
-    ELSE IF CountedSignaturesD(D, c.n, c.bm) < Threshold(c.n, c.fb) THEN "notEnough"
+    ELSE IF CountedSignaturesD(D, c.n, c.bm) < Threshold(c.n, CodeFbD(D, c)) THEN "notEnough"
     ELSE IF AggregateVerifies(c.n, c.bm, c.sg) THEN "ok" ELSE "sigInvalid"
 
 -----------------------------------------------------------------------------
 (* The property *)
 
-\* at least 2/3+1 (fallback: 1/2+1, a deliberate protocol rule for start-of-epoch metablocks) of the
+\* at least 2/3+1 (1/2+1 exactly when the protocol's documented fallback condition FallbackApplies holds) of the
 \* distinct group members, including the leader (index 0), contributed to the aggregated signature
 Quorum(n, fb, sg) == 0 \in sg /\ Cardinality(sg) >= Threshold(n, fb) /\ sg \subseteq 0..(n - 1)
 
@@ -90,8 +113,8 @@ Quorum(n, fb, sg) == 0 \in sg /\ Cardinality(sg) >= Threshold(n, fb) /\ sg \subs
 PaddingCountedCase(c) ==
     /\ c.bm # <<>> /\ Bit(c.bm, 0) /\ Len(c.bm) = ExpectedBitmapSize(c.n)
     /\ c.sg = Selected(c.n, c.bm)
-    /\ Cardinality(MemberBits(c.n, c.bm)) < Threshold(c.n, c.fb)
-    /\ OnesCountAll(c.bm) >= Threshold(c.n, c.fb)
+    /\ Cardinality(MemberBits(c.n, c.bm)) < Threshold(c.n, Fb(c))
+    /\ OnesCountAll(c.bm) >= Threshold(c.n, Fb(c))
 
 -----------------------------------------------------------------------------
 (* VerifySignature, stage by stage *)
@@ -106,16 +129,20 @@ Rec(r) ==
      out |-> [res |-> r,
               resIntended |-> Verdict({}, inp),
               resAsCoded |-> Verdict({"paddingCounted"}, inp),
-              quorum |-> Quorum(inp.n, inp.fb, inp.sg),
+              quorum |-> Quorum(inp.n, Fb(inp), inp.sg),
               members |-> Cardinality(MemberBits(inp.n, inp.bm)),
               padding |-> Cardinality(PaddingBits(inp.n, inp.bm)),
-              thr |-> Threshold(inp.n, inp.fb),
+              thr |-> Threshold(inp.n, Fb(inp)),
+              fallback |-> Fb(inp),
               \* class of the case, used for violation signatures only
               cls |-> IF PaddingCountedCase(inp) THEN "Inv_C17_Quorum_PaddingCounted"
                       ELSE IF inp.bm = <<>> \/ ~Bit(inp.bm, 0) THEN "Inv_C17_Quorum_ExceptPaddingCounted/leader-bit-clear"
                       ELSE IF Len(inp.bm) # ExpectedBitmapSize(inp.n) THEN "Inv_C17_Quorum_ExceptPaddingCounted/wrong-size-bitmap"
                       ELSE IF inp.sg # Selected(inp.n, inp.bm)
                            THEN "Inv_C17_Quorum_ExceptPaddingCounted/aggregate-not-over-selected-keys"
+                      ELSE IF inp.hk.meta /\ inp.hk.soe /\ ~Fb(inp)
+                              /\ Cardinality(MemberBits(inp.n, inp.bm)) >= PBFTFallbackThreshold(inp.n)
+                           THEN "Inv_C17_Quorum_ExceptPaddingCounted/fallback-threshold-without-its-condition"
                       ELSE "Inv_C17_Quorum_ExceptPaddingCounted/below-threshold"],
      st |-> [x |-> 0]]
 
@@ -132,7 +159,7 @@ CheckLeaderBit ==
 VerifyConsensusSize ==
     /\ pc = "size"
     /\ IF Len(inp.bm) # ExpectedBitmapSize(inp.n) THEN Finish("wrongSize")
-       ELSE IF CountedSignatures(inp.n, inp.bm) >= Threshold(inp.n, inp.fb)
+       ELSE IF CountedSignatures(inp.n, inp.bm) >= Threshold(inp.n, CodeFbD(KnownDefects, inp))
             THEN pc' = "multisig" /\ UNCHANGED <<inp, res, hist>>
             ELSE Finish("notEnough")
 
@@ -154,19 +181,19 @@ TypeOK ==
     /\ (pc = "done") = (res # "pending")
 
 \* C17: a header passes only with a quorum of real contributors including the leader
-Inv_C17_Quorum == res = "ok" => Quorum(inp.n, inp.fb, inp.sg)
+Inv_C17_Quorum == res = "ok" => Quorum(inp.n, Fb(inp), inp.sg)
 
 \* the same predicate split by input class (the trace configs list them separately, so that the known
 \* deviation has its own signature and never hides a different violation)
 Inv_C17_Quorum_PaddingCounted ==
-    (res = "ok" /\ PaddingCountedCase(inp)) => Quorum(inp.n, inp.fb, inp.sg)
+    (res = "ok" /\ PaddingCountedCase(inp)) => Quorum(inp.n, Fb(inp), inp.sg)
 Inv_C17_Quorum_ExceptPaddingCounted ==
-    (res = "ok" /\ ~PaddingCountedCase(inp)) => Quorum(inp.n, inp.fb, inp.sg)
+    (res = "ok" /\ ~PaddingCountedCase(inp)) => Quorum(inp.n, Fb(inp), inp.sg)
 
 \* C17, second sentence: bits that are not members never count -- the verdict of the size stage does not
 \* depend on padding bits: reaching the multisig stage implies enough MEMBER bits
 Inv_C17_PaddingNeverCounts ==
-    pc = "multisig" => Cardinality(MemberBits(inp.n, inp.bm)) >= Threshold(inp.n, inp.fb)
+    pc = "multisig" => Cardinality(MemberBits(inp.n, inp.bm)) >= Threshold(inp.n, Fb(inp))
 
 \* the stage machine and the one-shot function agree
 Inv_MachineIsVerdict == res # "pending" => res = Verdict(KnownDefects, inp)
